@@ -285,6 +285,9 @@ def _wid_of(args):
 
 
 def execute(case):
+    if "token" in case:
+        from vfw import live
+        return live.execute_live(case, ('C13:live',))
     if "cmd_tokens" in case:
         return execute_argv(case)
     return execute_hist(case)
@@ -401,11 +404,22 @@ def plan(tier, seed):
     return ([{"kind": "argv", "seed": seed * 100 + i, "n": na}
              for i in range(6)] +
             [{"kind": "hist", "seed": seed * 100 + 50 + i, "n": nh}
-             for i in range(10)])
+             for i in range(8)] +
+            [{"kind": "live", "seed": seed * 100 + 80 + i,
+              "n": 3 if tier == 'quick' else 40} for i in range(2)])
 
 
 def run_shard(spec):
     stats = Stats()
+    if spec["kind"] == 'live':
+        from vfw import live
+        found = hyp_search(live.strategy(), execute, stats, spec["seed"],
+                           spec["n"], known=spec["known"], max_rounds=2,
+                           shrink=False)
+        res = stats.as_dict()
+        res["violations"] = found
+        res["inconclusive"] = stats.counters.get('live-inconclusive', 0)
+        return res
     strat = _argv_strategy() if spec["kind"] == 'argv' else _hist_strategy()
     found = hyp_search(strat, execute, stats, spec["seed"], spec["n"],
                        known=spec["known"])
